@@ -464,11 +464,17 @@ func (r *rw) splitRMW(s ast.Stmt) []ast.Stmt {
 	tmp := ast.NewIdent("__rmw")
 	load := &ast.AssignStmt{Lhs: []ast.Expr{tmp}, Tok: token.DEFINE, Rhs: []ast.Expr{place}}
 	store := &ast.AssignStmt{Lhs: []ast.Expr{place}, Tok: token.ASSIGN, Rhs: []ast.Expr{&ast.BinaryExpr{X: tmp, Op: op, Y: rhs}}}
-	return []ast.Stmt{y, &ast.BlockStmt{List: []ast.Stmt{load, r.anyYieldAgain(), store}}}
+	return []ast.Stmt{y, &ast.BlockStmt{List: []ast.Stmt{load, r.rmwYield(), store}}}
 }
 
-// anyYieldAgain: a second scheduling point of the same kind (own site id).
-func (r *rw) anyYieldAgain() ast.Stmt { return r.anyYield() }
+// rmwYield: the scheduling point between the load and the store of a split read-modify-write (site kind "rmw": in a
+// dense run these are on in every function, there are only a handful of them).
+func (r *rw) rmwYield() ast.Stmt {
+	if r.isDense() {
+		return &ast.ExprStmt{X: hook("MemYield", r.site("rmw"))}
+	}
+	return &ast.ExprStmt{X: hook("MemYieldAll", r.site("rmw"))}
+}
 
 func (r *rw) yield() ast.Stmt { return &ast.ExprStmt{X: hook("Yield", r.site("op"))} }
 
